@@ -1199,42 +1199,147 @@ func (c *Ctx) c6Mat(nt int) c6Mat {
 }
 
 // material extensions: eqKey = index of the first ==-equal value in pool (Go interface equality decides)
+const c6ExtKinds = 11
+
+func (c *Ctx) c6PF() *float64 {
+	if c.Rng.Intn(3) == 0 {
+		return nil
+	}
+	v := float64(1+c.Rng.Intn(7)) / 4
+	return &v
+}
+
+// one material extension of the given kind with random parameters. payload = the numbers of the extension object in
+// sorted key order; texs = (json key, texture id) in the order ToMaterialExtensionData calls AddTexture. Colour-valued
+// parameters are left nil (they would go through rgbToFloatArr).
+func (c *Ctx) c6MakeExt(kind int, s *c6Scene) c6Ext {
+	f := func() float64 { return float64(c.Rng.Intn(8)) / 4 }
+	opt := func(e *c6Ext, p *float64) {
+		if p != nil {
+			e.payload = append(e.payload, *p)
+		}
+	}
+	tex := func(e *c6Ext, key string) *gltf.PolyformTexture {
+		if t := c.c6TexRef(len(s.texs)); t >= 0 {
+			e.texs = append(e.texs, c6KeyTex{key, t})
+			return s.texs[t].ptr
+		}
+		return nil
+	}
+	var e c6Ext
+	switch kind {
+	case 0:
+		e = c6Ext{id: "KHR_materials_unlit", val: gltf.PolyformUnlit{}}
+	case 1:
+		v := gltf.PolyformTransmission{Factor: f()}
+		e = c6Ext{id: "KHR_materials_transmission", payload: []float64{v.Factor}}
+		v.Texture = tex(&e, "transmissionTexture")
+		e.val = v
+	case 2:
+		v := gltf.PolyformClearcoat{ClearcoatFactor: f(), ClearcoatRoughnessFactor: f()}
+		e = c6Ext{id: "KHR_materials_clearcoat", payload: []float64{v.ClearcoatFactor, v.ClearcoatRoughnessFactor}}
+		v.ClearcoatTexture = tex(&e, "clearcoatTexture")
+		v.ClearcoatRoughnessTexture = tex(&e, "clearcoatRoughnessTexture")
+		e.val = v
+	case 3:
+		d := f()
+		e = c6Ext{id: "KHR_materials_dispersion", payload: []float64{d}, val: gltf.PolyformDispersion{Dispersion: d}}
+	case 4:
+		v := gltf.PolyformIndexOfRefraction{IOR: c.c6PF()}
+		e = c6Ext{id: "KHR_materials_ior"}
+		opt(&e, v.IOR)
+		e.val = v
+	case 5:
+		v := gltf.PolyformEmissiveStrength{EmissiveStrength: c.c6PF()}
+		e = c6Ext{id: "KHR_materials_emissive_strength"}
+		opt(&e, v.EmissiveStrength)
+		e.val = v
+	case 6: // keys: attenuationDistance, thicknessFactor, thicknessTexture
+		v := gltf.PolyformVolume{ThicknessFactor: f(), AttenuationDistance: c.c6PF()}
+		e = c6Ext{id: "KHR_materials_volume"}
+		opt(&e, v.AttenuationDistance)
+		e.payload = append(e.payload, v.ThicknessFactor)
+		v.ThicknessTexture = tex(&e, "thicknessTexture")
+		e.val = v
+	case 7: // keys: anisotropyRotation, anisotropyStrength, anisotropyTexture
+		v := gltf.PolyformAnisotropy{AnisotropyStrength: f(), AnisotropyRotation: f()}
+		e = c6Ext{id: "KHR_materials_anisotropy", payload: []float64{v.AnisotropyRotation, v.AnisotropyStrength}}
+		v.AnisotropyTexture = tex(&e, "anisotropyTexture")
+		e.val = v
+	case 8: // keys: iridescenceFactor, iridescenceIor, iridescenceThicknessMaximum, iridescenceThicknessMinimum, textures
+		v := gltf.PolyformIridescence{IridescenceFactor: f(), IridescenceIor: c.c6PF(), IridescenceThicknessMinimum: c.c6PF(), IridescenceThicknessMaximum: c.c6PF()}
+		e = c6Ext{id: "KHR_materials_iridescence", payload: []float64{v.IridescenceFactor}}
+		opt(&e, v.IridescenceIor)
+		opt(&e, v.IridescenceThicknessMaximum)
+		opt(&e, v.IridescenceThicknessMinimum)
+		v.IridescenceTexture = tex(&e, "iridescenceTexture")
+		v.IridescenceThicknessTexture = tex(&e, "iridescenceThicknessTexture")
+		e.val = v
+	case 9: // keys: sheenColorTexture, sheenRoughnessFactor, sheenRoughnessTexture
+		v := gltf.PolyformSheen{SheenRoughnessFactor: f()}
+		e = c6Ext{id: "KHR_materials_sheen", payload: []float64{v.SheenRoughnessFactor}}
+		v.SheenColorTexture = tex(&e, "sheenColorTexture")
+		v.SheenRoughnessTexture = tex(&e, "sheenRoughnessTexture")
+		e.val = v
+	default: // keys: specularColorTexture, specularFactor, specularTexture; AddTexture order: specularTexture, specularColorTexture
+		v := gltf.PolyformSpecular{Factor: c.c6PF()}
+		e = c6Ext{id: "KHR_materials_specular"}
+		opt(&e, v.Factor)
+		v.Texture = tex(&e, "specularTexture")
+		v.ColorTexture = tex(&e, "specularColorTexture")
+		e.val = v
+	}
+	return e
+}
+
+// eqKey = index of the first ==-equal value in pool (Go interface equality decides)
+func c6KeyExt(e *c6Ext, pool *[]gltf.MaterialExtension) {
+	e.eqKey = -1
+	for i, p := range *pool {
+		if p == e.val {
+			e.eqKey = i
+			break
+		}
+	}
+	if e.eqKey < 0 {
+		e.eqKey = len(*pool)
+		*pool = append(*pool, e.val)
+	}
+}
+
+func c6ExtKindOf(id string) int {
+	for k, n := range []string{"KHR_materials_unlit", "KHR_materials_transmission", "KHR_materials_clearcoat", "KHR_materials_dispersion",
+		"KHR_materials_ior", "KHR_materials_emissive_strength", "KHR_materials_volume", "KHR_materials_anisotropy",
+		"KHR_materials_iridescence", "KHR_materials_sheen", "KHR_materials_specular"} {
+		if n == id {
+			return k
+		}
+	}
+	return 0
+}
+
+// a value of the same kind that is NOT == to e (other parameters); unlit has no parameters
+func (c *Ctx) c6OtherExt(e c6Ext, s *c6Scene) (c6Ext, bool) {
+	kind := c6ExtKindOf(e.id)
+	if kind == 0 {
+		return e, false
+	}
+	for try := 0; try < 20; try++ {
+		o := c.c6MakeExt(kind, s)
+		if o.val != e.val {
+			return o, true
+		}
+	}
+	return e, false
+}
+
 func (c *Ctx) c6Exts(m *c6Mat, s *c6Scene, pool *[]gltf.MaterialExtension) {
 	n := 0
 	if c.Rng.Intn(3) == 0 {
 		n = 1 + c.Rng.Intn(2)
 	}
 	for k := 0; k < n; k++ {
-		var e c6Ext
-		switch c.Rng.Intn(4) {
-		case 0:
-			e = c6Ext{id: "KHR_materials_unlit", val: gltf.PolyformUnlit{}}
-		case 1:
-			f := float64(c.Rng.Intn(4)) / 4
-			v := gltf.PolyformTransmission{Factor: f}
-			e = c6Ext{id: "KHR_materials_transmission", payload: []float64{f}}
-			if t := c.c6TexRef(len(s.texs)); t >= 0 {
-				v.Texture = s.texs[t].ptr
-				e.texs = []c6KeyTex{{"transmissionTexture", t}}
-			}
-			e.val = v
-		case 2:
-			f1, f2 := float64(c.Rng.Intn(3))/2, float64(c.Rng.Intn(3))/2
-			v := gltf.PolyformClearcoat{ClearcoatFactor: f1, ClearcoatRoughnessFactor: f2}
-			e = c6Ext{id: "KHR_materials_clearcoat", payload: []float64{f1, f2}}
-			if t := c.c6TexRef(len(s.texs)); t >= 0 {
-				v.ClearcoatTexture = s.texs[t].ptr
-				e.texs = append(e.texs, c6KeyTex{"clearcoatTexture", t})
-			}
-			if t := c.c6TexRef(len(s.texs)); t >= 0 {
-				v.ClearcoatRoughnessTexture = s.texs[t].ptr
-				e.texs = append(e.texs, c6KeyTex{"clearcoatRoughnessTexture", t})
-			}
-			e.val = v
-		default:
-			d := float64(c.Rng.Intn(3))
-			e = c6Ext{id: "KHR_materials_dispersion", payload: []float64{d}, val: gltf.PolyformDispersion{Dispersion: d}}
-		}
+		e := c.c6MakeExt(c.Rng.Intn(c6ExtKinds), s)
 		dup := false
 		for _, x := range m.exts {
 			dup = dup || x.id == e.id
@@ -1242,19 +1347,60 @@ func (c *Ctx) c6Exts(m *c6Mat, s *c6Scene, pool *[]gltf.MaterialExtension) {
 		if dup {
 			continue // Go keeps extension data in a map keyed by id: one value per id and material
 		}
-		e.eqKey = -1
-		for i, p := range *pool {
-			if p == e.val {
-				e.eqKey = i
-				break
-			}
-		}
-		if e.eqKey < 0 {
-			e.eqKey = len(*pool)
-			*pool = append(*pool, e.val)
-		}
+		c6KeyExt(&e, pool)
 		m.exts = append(m.exts, e)
 	}
+}
+
+// material-extension dedup stress: for one extension kind, a base material and, each on its own visible model:
+// same name + same kind with OTHER parameters (must not merge), other name + the same value (must not merge), an exact
+// value duplicate sharing the extension value (must merge), and a copy without the extension (must not merge)
+func (c *Ctx) c6ExtStress() *c6Scene {
+	s := c6Witness()
+	nt := 1 + c.Rng.Intn(2)
+	for i := 0; i < nt; i++ {
+		s.texs = append(s.texs, c.c6Tex())
+	}
+	s.build()
+	pool := []gltf.MaterialExtension{}
+	kind := 1 + c.Rng.Intn(c6ExtKinds-1)
+	name := []string{"", "mat"}[c.Rng.Intn(2)]
+	base := c6Mat{name: name, bct: -1, mrt: -1, normal: -1, occl: -1, hasPbr: c.Rng.Intn(2) == 0}
+	e := c.c6MakeExt(kind, s)
+	c6KeyExt(&e, &pool)
+	base.exts = []c6Ext{e}
+	if c.Rng.Intn(3) == 0 {
+		e2 := c.c6MakeExt(0, s)
+		c6KeyExt(&e2, &pool)
+		base.exts = append(base.exts, e2)
+	}
+	s.mats = []c6Mat{base}
+	clone := func() c6Mat {
+		m := base
+		m.ptr = nil
+		m.exts = append([]c6Ext{}, base.exts...)
+		return m
+	}
+	if o, ok := c.c6OtherExt(e, s); ok {
+		m := clone()
+		c6KeyExt(&o, &pool)
+		m.exts[0] = o
+		s.mats = append(s.mats, m)
+		c.Note("mat.ext-parameter-differs")
+	}
+	m2 := clone()
+	m2.name = name + "2"
+	s.mats = append(s.mats, m2)
+	s.mats = append(s.mats, clone()) // exact duplicate: must merge with the base
+	m4 := clone()
+	m4.exts = m4.exts[1:]
+	s.mats = append(s.mats, m4)
+	s.models = nil
+	for k, mi := range c.Rng.Perm(len(s.mats)) {
+		s.models = append(s.models, c6Model{name: "x" + strconv.Itoa(k), mesh: k % 2, mat: mi})
+	}
+	c.Note("scene.extension-stress")
+	return s
 }
 
 func (c *Ctx) c6Vec(n int) []float64 {
@@ -1389,6 +1535,22 @@ func (c *Ctx) c6Scene(level int, big int) *c6Scene {
 						}
 					default:
 						m.name = "other"
+					}
+					if len(m.exts) > 0 && c.Rng.Intn(2) == 0 { // instead: only one extension PARAMETER differs
+						m = s.mats[len(s.mats)-1]
+						if i > 0 {
+							m = s.mats[c.Rng.Intn(i)]
+						}
+						m.ptr = nil
+						m.exts = append([]c6Ext{}, m.exts...)
+						if len(m.exts) > 0 {
+							k := c.Rng.Intn(len(m.exts))
+							if o, ok := c.c6OtherExt(m.exts[k], s); ok {
+								c6KeyExt(&o, &pool)
+								m.exts[k] = o
+								c.Note("mat.ext-parameter-differs")
+							}
+						}
 					}
 					c.Note("mat.near-duplicate")
 				}
@@ -1715,6 +1877,9 @@ func runC06(c *Ctx) {
 		s := c.c6Scene(level, 0)
 		if k%10 == 7 {
 			s = c.c6TexStress()
+		}
+		if k%10 == 3 {
+			s = c.c6ExtStress()
 		}
 		c.c6Case(s, k%2 == 0, "")
 	}
